@@ -4,7 +4,7 @@
    Property theorems only; each is closed by [exact] of a lemma proved in proofs/. *)
 From SQ Require Import lib.Base gen.Gen_C17.
 From SQ Require model.Spsc model.SpscExplore proofs.SpscClose proofs.SpscData proofs.SpscProofs proofs.SpscWake proofs.SpscWakeInv proofs.SpscWakeThm proofs.SpscFix.
-From SQ Require model.CursorRing model.Worker model.RxRing model.TxRings proofs.CursorProofs proofs.WorkerProofs proofs.RxRingProofs proofs.TxRingsProofs.
+From SQ Require model.CursorRing model.Worker model.RxRing model.TxRings proofs.CursorProofs proofs.WorkerProofs proofs.RxRingProofs proofs.TxRingsProofs proofs.TxRingsJudge.
 Import Spsc.
 Local Open Scope N_scope.
 
@@ -189,6 +189,10 @@ Theorem C17_txrings_no_lost_wakeup : forall size n s s' done,
      TxRings.tcw x' = false /\ (TxRings.tcw x0 = true -> TxRings.tcwk x0 < TxRings.tcwk x')).
 Proof. exact TxRingsProofs.tx_no_lost_wakeup. Qed.
 
+(* the executable judgement of the `txrings` component accepts every run of the model *)
+Theorem C17_txrings_judge_model : forall case, TxRings.judge case (TxRings.run case) = true.
+Proof. exact TxRingsJudge.txrings_judge_run. Qed.
+
 (* the executable judgement of the `rxring` component accepts every run of the model *)
 Theorem C17_rxring_judge_model : forall case, RxRing.judge case (RxRing.run case) = true.
 Proof. exact RxRingProofs.rxring_judge_run. Qed.
@@ -208,3 +212,4 @@ Print Assumptions C17_cursor_judge_model.
 Print Assumptions C17_spsc_quiescent_wake.
 Print Assumptions C17_rxring_judge_model.
 Print Assumptions C17_txrings_no_lost_wakeup.
+Print Assumptions C17_txrings_judge_model.
